@@ -16,15 +16,29 @@ var vJUnitPaths = []string{"", "a.proto", "user.proto", "user-event.proto", "../
 // annotations over a catalogue of file names incl. names that sort differently once ".proto" is cut off and an
 // annotation without a file. (The same verdict, the same annotations, the same order in every format.)
 func VerifLemma_C20D_JUnitOrder() {
+	vJUnitOrder(vJUnitPaths, 2)
+}
+
+// vJUnitSpellings: different spellings of one file (equal after cleaning) next to a different file - the formats must
+// agree on the order whatever notion of "same file" the sort uses.
+var vJUnitSpellings = []string{"./p/i.proto", "p/i.proto", "p//i.proto", "p/j.proto"}
+
+// VerifLemma_C20D_JUnitOrderSpellings: same claim as C20-D.junit-order for annotations whose external paths are
+// different spellings of the same file, with interleaving line numbers.
+func VerifLemma_C20D_JUnitOrderSpellings() {
+	vJUnitOrder(vJUnitSpellings, 3)
+}
+
+func vJUnitOrder(catalogue []string, maxLine int) {
 	n := verifNondetChoice(verifParam("ANNS")-1) + 2
 	in := make([]FileAnnotation, n)
 	for i := 0; i < n; i++ {
-		p := vJUnitPaths[verifNondetChoice(len(vJUnitPaths))]
+		p := catalogue[verifNondetChoice(len(catalogue))]
 		var fi FileInfo
 		if p != "" {
 			fi = &vFileInfo{path: p, ext: p}
 		}
-		in[i] = newFileAnnotation(fi, 1+verifNondetChoice(2), 1, 0, 0, "T", "m", "")
+		in[i] = newFileAnnotation(fi, 1+verifNondetChoice(maxLine), 1, 0, 0, "T", "m", "")
 	}
 	set := NewFileAnnotationSet(in...)
 	var text, junit bytes.Buffer
